@@ -11,7 +11,7 @@ theorem Frame.setDirty (p : Program) (s : St) (dirty' : Key → Key → Bool) :
   Frame.of_nodes (s := s) (s' := { s with dirty := dirty' }) rfl rfl rfl (fun _ => Or.inl rfl)
 
 /-- the clean path of `repair_query`: every recorded callee has been found unchanged -/
-theorem clean_spec {p : Program} (wf : WF p) (sh : Shape p) {s1 : St} (i1 : Inv p s1) {k : Key} {n : Node}
+theorem clean_spec {p : Program} (wf : WF p) {s1 : St} (i1 : Inv p s1) {k : Key} {n : Node}
     (k1 : s1.nodes k = some n) (hnv : n.lastVerified ≠ s1.epoch) (moved : Bool) (cl : List Key)
     (hall : ∀ d o, (d, o) ∈ n.deps → DepOK s1 n moved d o)
     (hw : moved = true → ∃ d o nd, (d, o) ∈ n.deps ∧ s1.nodes d = some nd ∧ nd.kind ≠ .firewall ∧
@@ -32,11 +32,9 @@ theorem clean_spec {p : Program} (wf : WF p) (sh : Shape p) {s1 : St} (i1 : Inv 
       have hkp : n.kind ≠ .projection := by
         intro hkp
         obtain ⟨wd, wo, wnd, wm, wnode, wk, wne⟩ := hw rfl
-        rcases sh with pa | sp
-        · exact wk (i1.pjFw pa k n k1 hkp wd wo wnd wm wnode)
-        · rcases i1.pjKinds k n k1 hkp wd wo wnd wm wnode with h | h
-          · exact wk h
-          · exact wne (i1.pjSeen sp k n wd wo wnd k1 wm wnode h).symm
+        rcases i1.pjKinds k n k1 hkp wd wo wnd wm wnode with h | ⟨h, hs⟩
+        · exact wk h
+        · exact wne (i1.pjSeen k n wd wo wnd k1 wm wnode h hs).symm
       obtain ⟨ia, fa, sa⟩ := i1.setMoved k1 hkp hnv
         (fun d o hm => by obtain ⟨nd, a, b, c, _⟩ := hall d o hm; exact ⟨nd, a, b, c⟩) (hw rfl)
       refine ⟨{ n with lastVerified := s1.epoch, tfc := recomputeTfc s1 n.deps, seen := tfcOf s1 },
